@@ -334,6 +334,11 @@ class BaseCarver(BaseDiscretizer):
         xaggs_dev = self._aggregator(  # pylint: disable=E1101
             self.features, x_dev_copy, y_dev, labels_orders
         )
+        # a modality that is absent from X_dev holds 0 observation of X_dev (not a missing count)
+        xaggs_dev = {
+            feature: xagg_dev.fillna(0) if xagg_dev is not None else None
+            for feature, xagg_dev in xaggs_dev.items()
+        }
         # optimal butcketization/carving of each feature
         all_features = self.features[:]  # (features are being removed from self.features)
         for n, feature in enumerate(all_features):
